@@ -315,6 +315,69 @@ theorem tail_removeNames (c : Context) (names : List Str) :
     show (removeNames (remove c n) r).drop 1 = _
     rw [ih, tail_remove]
 
+/-! ### the fold `add_arguments_to_context` performs (`is_argument=True` for every name) -/
+
+def addArgNames (c : Context) (names : List Str) : Context :=
+  names.foldl (fun c n => add c (nameSym n) true) c
+
+theorem addArgNames_nil (c : Context) : addArgNames c [] = c := rfl
+theorem addArgNames_cons (c : Context) (n : Str) (r : List Str) :
+    addArgNames c (n :: r) = addArgNames (add c (nameSym n) true) r := rfl
+
+theorem get?_addArgNames_other (c : Context) (names : List Str) (x : Str) (hx : x ∉ names) :
+    get? (addArgNames c names) x = get? c x := by
+  induction names generalizing c with
+  | nil => rfl
+  | cons n r ih =>
+    simp only [List.mem_cons, not_or] at hx
+    rw [addArgNames_cons, ih _ hx.2]
+    exact get?_add_other c (nameSym n) true x (fun e => hx.1 e.symm)
+
+/-- every listed name resolves to ITS OWN `Name` symbol afterwards, whatever `c` held. -/
+theorem get?_addArgNames_mem (c : Context) (names : List Str) (x : Str) (hx : x ∈ names) :
+    get? (addArgNames c names) x = some (nameSym x) := by
+  induction names generalizing c with
+  | nil => cases hx
+  | cons n r ih =>
+    rw [addArgNames_cons]
+    by_cases hr : x ∈ r
+    · exact ih _ hr
+    · have hn : x = n := by
+        rcases List.mem_cons.mp hx with h | h
+        · exact h
+        · exact absurd h hr
+      subst hn
+      rw [get?_addArgNames_other _ r x hr]
+      exact get?_add_arg c (nameSym x)
+
+theorem contains_addArgNames (c : Context) (names : List Str) (x : Str) (hx : x ∈ names) :
+    contains (addArgNames c names) x = true := by
+  simp [contains, get?_addArgNames_mem c names x hx]
+
+theorem contains_addArgNames_mono (c : Context) (names : List Str) (x : Str)
+    (h : contains c x = true) : contains (addArgNames c names) x = true := by
+  by_cases hx : x ∈ names
+  · exact contains_addArgNames c names x hx
+  · unfold contains; rw [get?_addArgNames_other c names x hx]; exact h
+
+theorem addArgNames_ne_nil (c : Context) (names : List Str) (h : c ≠ []) : addArgNames c names ≠ [] := by
+  induction names generalizing c with
+  | nil => exact h
+  | cons n r ih => rw [addArgNames_cons]; exact ih _ (add_ne_nil c _ _ h)
+
+theorem length_addArgNames (c : Context) (names : List Str) (h : c ≠ []) :
+    (addArgNames c names).length = c.length := by
+  induction names generalizing c with
+  | nil => rfl
+  | cons n r ih =>
+    rw [addArgNames_cons, ih _ (add_ne_nil c _ _ h), length_add c _ _ h]
+
+theorem tail_addArgNames (c : Context) (names : List Str) (h : c ≠ []) :
+    (addArgNames c names).drop 1 = c.drop 1 := by
+  induction names generalizing c with
+  | nil => rfl
+  | cons n r ih => rw [addArgNames_cons, ih _ (add_ne_nil c _ _ h), tail_add c _ _ h]
+
 end Context
 
 /-! ### `addArguments` -/
@@ -322,23 +385,36 @@ end Context
 namespace FnA
 
 theorem addArguments_ctx (s : St) (ps : Params) :
-    (addArguments s ps).ctx = Context.addNames s.ctx ps.all := rfl
+    (addArguments s ps).ctx = Context.addArgNames s.ctx ps.all := rfl
 
 /-- `add_arguments_to_context` makes every parameter name visible. -/
 theorem addArguments_contains (s : St) (ps : Params) (x : Str) (hx : x ∈ ps.all) :
     Context.contains (addArguments s ps).ctx x = true := by
-  rw [addArguments_ctx]; exact Context.contains_addNames _ _ x hx
+  rw [addArguments_ctx]; exact Context.contains_addArgNames _ _ x hx
 
-/-- … but a parameter named like something visible outside keeps resolving to the OUTER symbol
-(parameters are registered with a plain `add`). -/
-theorem addArguments_does_not_shadow (s : St) (ps : Params) (x : Str)
-    (h : Context.contains s.ctx x = true) :
+/-- … and (since fix 87aba71: `is_argument=True`) every parameter resolves to its own `Name`
+symbol, shadowing whatever the outer context holds under that name. -/
+theorem addArguments_shadows (s : St) (ps : Params) (x : Str) (hx : x ∈ ps.all) :
+    Context.get? (addArguments s ps).ctx x = some (Context.nameSym x) := by
+  rw [addArguments_ctx]; exact Context.get?_addArgNames_mem _ _ x hx
+
+/-- names that are not parameters resolve as before. -/
+theorem addArguments_other (s : St) (ps : Params) (x : Str) (hx : x ∉ ps.all) :
     Context.get? (addArguments s ps).ctx x = Context.get? s.ctx x := by
-  rw [addArguments_ctx]; exact Context.get?_addNames_visible _ _ x h
+  rw [addArguments_ctx]; exact Context.get?_addArgNames_other _ _ x hx
+
+theorem addArguments_contains_mono (s : St) (ps : Params) (x : Str)
+    (h : Context.contains s.ctx x = true) : Context.contains (addArguments s ps).ctx x = true := by
+  rw [addArguments_ctx]; exact Context.contains_addArgNames_mono _ _ x h
 
 theorem addArguments_length (s : St) (ps : Params) (h : s.ctx ≠ []) :
     (addArguments s ps).ctx.length = s.ctx.length := by
-  rw [addArguments_ctx]; exact Context.length_addNames _ _ h
+  rw [addArguments_ctx]; exact Context.length_addArgNames _ _ h
+
+/-- the parameters live in the innermost scope only: the enclosing scopes are untouched. -/
+theorem addArguments_tail (s : St) (ps : Params) (h : s.ctx ≠ []) :
+    (addArguments s ps).ctx.drop 1 = s.ctx.drop 1 := by
+  rw [addArguments_ctx]; exact Context.tail_addArgNames _ _ h
 
 theorem mem_params_all (ps : Params) (x : Str) :
     x ∈ ps.all ↔ x ∈ ps.posonly ∨ x ∈ ps.args ∨ ps.vararg = some x ∨ x ∈ ps.kwonly ∨ ps.kwarg = some x := by
@@ -742,7 +818,7 @@ theorem visit_bal (env : Env) (mn : Str) : (nd : Node) → (n : Nat) → (s : St
       exact Bal.bind (visit_bal env mn t n s2 hn ih) fun s3 h3 => visit_bal env mn v n s3 hn h3
   | .delete targets, n, s, hn, hs => by
     rw [visit.eq_def]; simp only []
-    exact Bal.bind (Bal.removeIdentifiersL targets s hs) fun s1 h1 => visitList_bal env mn targets n s1 hn h1
+    exact Bal.bind (visitList_bal env mn targets n s hn hs) fun s1 h1 => Bal.removeIdentifiersL targets s1 h1
   | .forLoop t iter body orelse, n, s, hn, hs => by
     rw [visit.eq_def]; simp only []
     exact Bal.bind (Bal.addIdentifiers s t hn hs) fun s1 h1 =>
@@ -1195,7 +1271,7 @@ theorem visit_ci (hmk : MkSpec Q) (hdd : DdSpec Q) (env : Env) (mn : Str) : (nd 
       exact CI.bind (visit_ci hmk hdd env mn t s2 ih) fun s3 h3 => visit_ci hmk hdd env mn v s3 h3
   | .delete targets, s, hs => by
     rw [visit.eq_def]; simp only []
-    exact CI.bind (CI.removeIdentifiersL targets s hs) fun s1 h1 => visitList_ci hmk hdd env mn targets s1 h1
+    exact CI.bind (visitList_ci hmk hdd env mn targets s hs) fun s1 h1 => CI.removeIdentifiersL targets s1 h1
   | .forLoop t iter body orelse, s, hs => by
     rw [visit.eq_def]; simp only []
     exact CI.bind (CI.addIdentifiers s t hs) fun s1 h1 =>
